@@ -31,6 +31,12 @@ theorem tasksTree_under (dir : Path) : ∀ (t : Tree), ∀ x ∈ tasksTree dir t
     · subst h; exact ⟨["meta.json"], by simp, rfl⟩
     · obtain ⟨n, _, rest, hr⟩ := tasksKids_under dir ms x h
       exact ⟨n :: rest, by simp, hr⟩
+  | .tclass c f ms, x, h => by
+    simp only [tasksTree, List.mem_cons] at h
+    rcases h with h | h
+    · subst h; exact ⟨["meta.json"], by simp, rfl⟩
+    · obtain ⟨n, _, rest, hr⟩ := tasksKids_under dir ms x h
+      exact ⟨n :: rest, by simp, hr⟩
 theorem tasksKids_under (dir : Path) : ∀ (kids : List (String × Tree)), ∀ x ∈ tasksKids dir kids,
     Under dir (kids.map entryName) x.1
   | [], x, h => by simp [tasksKids] at h
@@ -62,6 +68,13 @@ theorem tasksKids_under (dir : Path) : ∀ (kids : List (String × Tree)), ∀ x
     simp only [tasksKids, List.mem_append] at h
     rcases h with h | h
     · obtain ⟨r, _, hr⟩ := tasksTree_under (dir ++ [k]) (.lazy sd ms) x h
+      exact ⟨k, by simp [entryName], r, by rw [hr]; simp⟩
+    · obtain ⟨n, hn, r, hr⟩ := tasksKids_under dir rest x h
+      exact ⟨n, by simp only [List.map_cons, List.mem_cons]; right; exact hn, r, hr⟩
+  | (k, .tclass c f ms) :: rest, x, h => by
+    simp only [tasksKids, List.mem_append] at h
+    rcases h with h | h
+    · obtain ⟨r, _, hr⟩ := tasksTree_under (dir ++ [k]) (.tclass c f ms) x h
       exact ⟨k, by simp [entryName], r, by rw [hr]; simp⟩
     · obtain ⟨n, hn, r, hr⟩ := tasksKids_under dir rest x h
       exact ⟨n, by simp only [List.map_cons, List.mem_cons]; right; exact hn, r, hr⟩
@@ -125,6 +138,19 @@ theorem tasksTree_nodup (dir : Path) : ∀ (t : Tree), PathSafe t → ((tasksTre
     have := List.append_cancel_left hxe
     simp only [List.cons.injEq] at this
     exact hnd.2.2 n hn "meta.json" (by simp) this.1
+  | .tclass c f ms, h => by
+    simp only [PathSafe] at h
+    obtain ⟨hnd, _, hk⟩ := h
+    rw [List.nodup_append] at hnd
+    simp only [tasksTree, List.map_cons, List.nodup_cons]
+    refine ⟨?_, tasksKids_nodup dir ms hk hnd.1⟩
+    intro hmem
+    obtain ⟨x, hx, hxe⟩ := List.mem_map.1 hmem
+    obtain ⟨n, hn, r, hr⟩ := tasksKids_under dir ms x hx
+    rw [hr] at hxe
+    have := List.append_cancel_left hxe
+    simp only [List.cons.injEq] at this
+    exact hnd.2.2 n hn "meta.json" (by simp) this.1
 theorem tasksKids_nodup (dir : Path) : ∀ (kids : List (String × Tree)), PathSafeKids kids →
     (kids.map entryName).Nodup → ((tasksKids dir kids).map (·.1)).Nodup
   | [], _, _ => by simp [tasksKids]
@@ -154,6 +180,9 @@ theorem tasksKids_nodup (dir : Path) : ∀ (kids : List (String × Tree)), PathS
       | lazy sd ms =>
         have := tasksTree_nodup (dir ++ [k]) (.lazy sd ms) hs.1
         simpa [tasksKids] using this
+      | tclass c f ms =>
+        have := tasksTree_nodup (dir ++ [k]) (.tclass c f ms) hs.1
+        simpa [tasksKids] using this
 end
 
 
@@ -172,6 +201,10 @@ def WF : Tree → Prop
   | .node _ _ kids => WFKids kids
   | .lazy _ ms =>
     (∀ j (h : j < ms.length), (ms[j]'h).1 = toString j) ∧ (∀ p ∈ ms, isColl p.2 = true) ∧ WFKids ms
+  | .tclass cls _ inner =>
+    -- the class is none of the built-in container types; its tensordict sits under `_tensordict`
+    (cls ≠ "TensorDict" ∧ cls ≠ "NonTensorData" ∧ cls ≠ "LazyStackedTensorDict")
+      ∧ inner.map (·.1) = ["_tensordict"] ∧ (∀ p ∈ inner, isColl p.2 = true) ∧ WFKids inner
 def WFKids : List (String × Tree) → Prop
   | [] => True
   | (_, t) :: rest => WF t ∧ WFKids rest
@@ -245,6 +278,7 @@ theorem descendKids (fs : FS) (dir : Path) (kids : List (String × Tree))
     | nontensor _ _ => simp [tasksKids]
     | node _ _ _ => simp [tasksKids]
     | lazy _ _ => simp [tasksKids]
+    | tclass _ _ _ => simp [tasksKids]
   intro x hx
   apply he
   exact (mem_tasksKids dir kids x).2 ⟨(k, t), hk, (hsub x).1 hx⟩
@@ -320,6 +354,7 @@ theorem load_ok : ∀ (fuel : Nat) (t : Tree) (dir : Path) (fs : FS), isColl t =
     | nontensor _ _ => simp [depth] at hd
     | node _ _ _ => simp [depth] at hd
     | lazy _ _ => simp [depth] at hd
+    | tclass _ _ _ => simp [depth] at hd
   | succ f ih =>
     intro t dir fs hc hs hw hd he
     cases t with
@@ -383,6 +418,14 @@ theorem load_ok : ∀ (fuel : Nat) (t : Tree) (dir : Path) (fs : FS), isColl t =
             rw [List.map_cons]
             change loadEntries f fs dir ((k, MetaEntry.coll "LazyStackedTensorDict") :: _) = _
             simp only [loadEntries, hrest, this]
+          | tclass c2 f2 i2 =>
+            have hex := descend fs dir bt dv kids he k (.tclass c2 f2 i2) hmem rfl
+            have hsw := safe_of_mem kids k _ hmem hsk hwk
+            have := ih (.tclass c2 f2 i2) (dir ++ [k]) fs rfl hsw.1 hsw.2
+              (by have := depth_le_of_mem kids k _ hmem; omega) hex
+            rw [List.map_cons]
+            change loadEntries f fs dir ((k, MetaEntry.coll c2) :: _) = _
+            simp only [loadEntries, hrest, this]
       have hk := key kids (fun x hx => hx)
       simp only [load, hm]
       have hkind : ¬ (nodeMeta bt dv kids).kind = "NonTensorData" := by simp [nodeMeta]
@@ -390,6 +433,8 @@ theorem load_ok : ∀ (fuel : Nat) (t : Tree) (dir : Path) (fs : FS), isColl t =
       have hent : (nodeMeta bt dv kids).entries = kids.map fun p => (p.1, metaEntry p.2) := rfl
       have hkind2 : ¬ (nodeMeta bt dv kids).kind = "LazyStackedTensorDict" := by simp [nodeMeta]
       simp only [hkind2, if_false]
+      have hkind3 : (nodeMeta bt dv kids).kind = "TensorDict" := rfl
+      simp only [hkind3, if_true]
       rw [hent, hk]
       rfl
     | lazy sd ms =>
@@ -412,6 +457,31 @@ theorem load_ok : ∀ (fuel : Nat) (t : Tree) (dir : Path) (fs : FS), isColl t =
       have hall := loadMembers_ok f fs dir ms 0 (by intro j h; simpa using hkeys j h) hmem
       simp only [load, hm, lazyMeta]
       simp [hall]
+    | tclass cls fields inner =>
+      have hm := he (dir ++ ["meta.json"], .json (tcMeta cls fields)) (by simp [tasksTree])
+      simp only at hm
+      have hdk : depthKids inner ≤ f := by simp only [depth] at hd; omega
+      have hsk : PathSafeKids inner := by simp only [PathSafe] at hs; exact hs.2.2
+      simp only [WF] at hw
+      obtain ⟨⟨hc1, hc2, hc3⟩, hkeys, hcoll, hwk⟩ := hw
+      have hkt : ∀ x ∈ tasksKids dir inner, fs x.1 = some x.2 :=
+        fun x hx => he x (by simp only [tasksTree, List.mem_cons]; right; exact hx)
+      -- `inner` is the single entry `_tensordict`
+      cases inner with
+      | nil => simp at hkeys
+      | cons kid rest =>
+        obtain ⟨k, t⟩ := kid
+        simp only [List.map_cons, List.cons.injEq, List.map_eq_nil_iff] at hkeys
+        obtain ⟨hk0, hrest⟩ := hkeys
+        subst hrest
+        subst hk0
+        have hct : isColl t = true := hcoll ("_tensordict", t) (by simp)
+        have hex := descendKids fs dir [("_tensordict", t)] hkt "_tensordict" t (by simp) hct
+        have hsw := safe_of_mem [("_tensordict", t)] "_tensordict" t (by simp) hsk hwk
+        have hl := ih t (dir ++ ["_tensordict"]) fs hct hsw.1 hsw.2
+          (by have := depth_le_of_mem [("_tensordict", t)] "_tensordict" t (by simp); omega) hex
+        simp only [load, hm, tcMeta]
+        simp [hc1, hc2, hc3, hl]
 
 /-! ### memmap_like -/
 
@@ -422,6 +492,7 @@ def skeleton : Tree → Tree
   | .nontensor d b => .nontensor d b
   | .node b d kids => .node b d (skeletonKids kids)
   | .lazy sd ms => .lazy sd (skeletonKids ms)
+  | .tclass c f i => .tclass c f (skeletonKids i)
 def skeletonKids : List (String × Tree) → List (String × Tree)
   | [] => []
   | (k, t) :: rest => (k, skeleton t) :: skeletonKids rest
@@ -433,6 +504,7 @@ theorem like_skeleton : ∀ t : Tree, skeleton (likeTree t) = skeleton t
   | .nontensor .. => by simp [likeTree, skeleton]
   | .node b d kids => by simp [likeTree, skeleton, like_skeletonKids kids]
   | .lazy sd ms => by simp [likeTree, skeleton, like_skeletonKids ms]
+  | .tclass c f i => by simp [likeTree, skeleton, like_skeletonKids i]
 theorem like_skeletonKids : ∀ kids : List (String × Tree), skeletonKids (likeKids kids) = skeletonKids kids
   | [] => by simp [likeKids, skeletonKids]
   | (k, t) :: rest => by simp [likeKids, skeletonKids, like_skeleton t, like_skeletonKids rest]
@@ -450,6 +522,7 @@ theorem like_tasks_paths (dir : Path) : ∀ t : Tree,
       | nil => rfl
       | cons a as ih => obtain ⟨k, t⟩ := a; simp [likeKids, ih]
     simp [likeTree, tasksTree, like_tasksKids_paths dir ms, hl]
+  | .tclass c f i => by simp [likeTree, tasksTree, like_tasksKids_paths dir i]
 theorem like_tasksKids_paths (dir : Path) : ∀ kids : List (String × Tree),
     (tasksKids dir (likeKids kids)).map (·.1) = (tasksKids dir kids).map (·.1)
   | [] => by simp [likeKids, tasksKids]
@@ -464,6 +537,10 @@ theorem like_tasksKids_paths (dir : Path) : ∀ kids : List (String × Tree),
     simp only [likeKids, likeTree, tasksKids, List.map_append, like_tasksKids_paths dir rest, this]
   | (k, .lazy sd ms) :: rest => by
     have := like_tasks_paths (dir ++ [k]) (.lazy sd ms)
+    simp only [likeTree] at this
+    simp only [likeKids, likeTree, tasksKids, List.map_append, like_tasksKids_paths dir rest, this]
+  | (k, .tclass c f i) :: rest => by
+    have := like_tasks_paths (dir ++ [k]) (.tclass c f i)
     simp only [likeTree] at this
     simp only [likeKids, likeTree, tasksKids, List.map_append, like_tasksKids_paths dir rest, this]
 end
